@@ -31,6 +31,8 @@ mod verif_probe_tracker_constraints_c20 {
         else {
             let mut o = VisualSortOptions::default().max_idle_epochs(5).kept_history_length(3).visual_metric(VisualSortMetricType::Euclidean(0.5)).positional_metric(method).visual_minimal_track_length(3).visual_max_observations(5);
             if let Some(c) = c { o = o.spatio_temporal_constraints(c); }
+            // the remaining options are set AFTER the table (with their default values): the order of the builder calls does not matter
+            o = o.kalman_position_weight(1.0 / 20.0).kalman_velocity_weight(1.0 / 160.0).visual_min_votes(1);
             T::V(VisualSort::new(1, &o))
         }
     }
